@@ -173,6 +173,12 @@ pub fn suite_paths(g: &G, grid: u8) -> Value {
             call(0, -1, false, true);
             call(0, -1, true, true);
             call(0, -1, false, false);
+            // one shortest path to one target: the combination a point-to-point search is written for
+            if grid == 0 && names.len() <= 8 {
+                for &t in &names {
+                    call(t, -1, true, true);
+                }
+            }
             if grid >= 1 {
                 // distances for the cutoff grid come from the library's own unrestricted answer
                 let dists: Vec<f64> = dijkstra::single_source(g, weighted, s, None, None, false, false)
@@ -283,6 +289,111 @@ pub fn suite_centrality(g: &G) -> Value {
     json!({"bc": bc, "cc": cc})
 }
 
+/// suite "options_float": C08 on weights that are not exactly representable (tenths).  The exact oracle cannot
+/// follow floating-point sums, but "options restrict, never change" can be stated on the library's own answers:
+/// for every source, the answer with a cutoff c is the unrestricted answer filtered by distance <= c (every
+/// distinct distance and every midpoint is used as c), the entry for a target is the unrestricted entry, and a
+/// first_only path is one of the unrestricted paths.  Both sides are logged (distances as bit patterns) and
+/// compared by the monitor.
+pub fn suite_options_float(g: &G) -> Value {
+    let names: Vec<i32> = { let mut v: Vec<i32> = g.get_all_node_names().into_iter().copied().collect(); v.sort(); v };
+    let mut rows = vec![];
+    if !(g.edges_have_weight() && !g.get_all_edges().is_empty()) {
+        return json!({"rows": rows});
+    }
+    let entry = |t: i32, spi: &ShortestPathInfo<i32>| -> Value {
+        let mut p = spi.paths.clone();
+        p.sort();
+        json!([t, format!("{:016x}", spi.distance.to_bits()), p])
+    };
+    for &s in &names {
+        let full = match dijkstra::single_source(g, true, s, None, None, false, true) { Ok(m) => m, Err(_) => continue };
+        let mut ds: Vec<f64> = full.values().map(|x| x.distance).collect();
+        ds.sort_by(|a, b| a.partial_cmp(b).unwrap());
+        ds.dedup();
+        let mut cuts: Vec<f64> = ds.clone();
+        for w in ds.windows(2) { cuts.push((w[0] + w[1]) / 2.0); }
+        for c in cuts {
+            for (fo, wp) in [(false, true), (true, true), (false, false)] {
+                let got = guarded(|| match dijkstra::single_source(g, true, s, None, Some(c), fo, wp) {
+                    Ok(m) => { let mut v: Vec<(i32, String)> = m.iter().map(|(t, x)| (*t, format!("{:016x}", x.distance.to_bits()))).collect(); v.sort(); json!({"e": "", "v": v}) }
+                    Err(e) => json!({"e": kind_name(&e.kind), "v": []}),
+                });
+                let mut want: Vec<(i32, String)> = full.iter().filter(|(_, x)| x.distance <= c).map(|(t, x)| (*t, format!("{:016x}", x.distance.to_bits()))).collect();
+                want.sort();
+                rows.push(json!({"kind": "cutoff", "s": s, "c": format!("{}", c), "first_only": fo, "with_paths": wp, "got": got, "want": {"e": "", "v": want}}));
+            }
+        }
+        for &t in &names {
+            let got = guarded(|| match dijkstra::single_source(g, true, s, Some(t), None, false, true) {
+                Ok(m) => json!({"e": "", "v": m.get(&t).map(|x| vec![entry(t, x)]).unwrap_or_default()}),
+                Err(e) => json!({"e": kind_name(&e.kind), "v": []}),
+            });
+            let want = json!({"e": "", "v": full.get(&t).map(|x| vec![entry(t, x)]).unwrap_or_default()});
+            rows.push(json!({"kind": "target", "s": s, "c": format!("{}", t), "first_only": false, "with_paths": true, "got": got, "want": want}));
+        }
+    }
+    json!({"rows": rows})
+}
+
+/// suite "centrality_big": graphs whose shortest-path counts exceed anything the exact oracle can hold (2^64
+/// and more).  Only what can be judged without the oracle: one finite non-negative entry per node, and the
+/// identity  sum of (raw, hop-count) betweenness = sum over connected ordered pairs of (distance - 1), halved
+/// when undirected - every shortest s-t path has distance - 1 interior nodes.  Distances come from a
+/// breadth-first search over get_all_edges() done here.
+pub fn suite_centrality_big(g: &G) -> Value {
+    let names: Vec<i32> = g.get_all_node_names().into_iter().copied().collect();
+    let n = names.len();
+    let idx: HashMap<i32, usize> = names.iter().enumerate().map(|(i, k)| (*k, i)).collect();
+    let mut adj: Vec<Vec<usize>> = vec![vec![]; n];
+    for e in g.get_all_edges() {
+        if e.u == e.v { continue; }
+        adj[idx[&e.u]].push(idx[&e.v]);
+        if !g.specs.directed { adj[idx[&e.v]].push(idx[&e.u]); }
+    }
+    let mut expected = 0.0f64;
+    for s in 0..n {
+        let mut d = vec![usize::MAX; n];
+        d[s] = 0;
+        let mut q = std::collections::VecDeque::from([s]);
+        while let Some(v) = q.pop_front() {
+            for &w in &adj[v] {
+                if d[w] == usize::MAX { d[w] = d[v] + 1; q.push_back(w); }
+            }
+        }
+        for t in 0..n {
+            if t != s && d[t] != usize::MAX { expected += (d[t] - 1) as f64; }
+        }
+    }
+    if !g.specs.directed { expected /= 2.0; }
+    let mut calls = vec![];
+    for normalized in [false, true] {
+        let r = guarded(|| match betweenness::betweenness_centrality(g, false, normalized) {
+            Ok(m) => {
+                let entries_ok = m.len() == n && names.iter().all(|k| m.contains_key(k));
+                let finite = m.values().all(|v| v.is_finite());
+                let nonneg = m.values().all(|v| *v >= 0.0);
+                let mut sum: f64 = m.values().sum();
+                if normalized && n > 2 {
+                    // undo the library's normalisation: raw directed sum
+                    sum *= ((n - 1) * (n - 2)) as f64;
+                    if !g.specs.directed { sum /= 2.0; }
+                }
+                let rel = (sum - expected).abs() / expected.max(1.0);
+                json!({"e": "", "entries_ok": entries_ok, "finite": finite, "nonneg": nonneg,
+                       "rel_err_e9": if rel.is_finite() { (rel * 1.0e9).round().min(2.0e9) as i64 } else { 2_000_000_000i64 }})
+            }
+            Err(e) => json!({"e": kind_name(&e.kind), "entries_ok": false, "finite": false, "nonneg": false, "rel_err_e9": 0}),
+        });
+        let mut c = json!({"normalized": normalized, "e": r["e"], "entries_ok": r.get("entries_ok").cloned().unwrap_or(json!(false)),
+            "finite": r.get("finite").cloned().unwrap_or(json!(false)), "nonneg": r.get("nonneg").cloned().unwrap_or(json!(false)),
+            "rel_err_e9": r.get("rel_err_e9").cloned().unwrap_or(json!(0)), "panic": r.get("panic").cloned().unwrap_or(json!(""))});
+        c["n"] = json!(n);
+        calls.push(c);
+    }
+    json!({"big": calls})
+}
+
 /// suite "weighted": the weighted answers used by C03 (distances from every node,
 /// betweenness and closeness), to be compared with the specification evaluated on
 /// the logged get_all_edges() alone.
@@ -324,12 +435,15 @@ fn observe_case<W: Write>(em: &mut Emitter<W>, suite: &str, grid: u8, case: &Val
             return;
         }
     };
-    let post = project(&g);
+    // the big-count suite is judged without the graph (hundreds of nodes): it is not projected into the trace
+    let post = if suite == "centrality_big" { crate::mutgen::no_post(specs) } else { project(&g) };
     let mut rng = <rand_chacha::ChaCha8Rng as rand::SeedableRng>::seed_from_u64(em.next_id);
     let big = grid >= 2;
     let a = match suite {
         "paths" => suite_paths(&g, grid),
         "centrality" => suite_centrality(&g),
+        "centrality_big" => suite_centrality_big(&g),
+        "options_float" => suite_options_float(&g),
         "weighted" => suite_weighted(&g),
         "eigen" => crate::algo2::suite_eigen(&g),
         "api" => {
